@@ -191,6 +191,21 @@ def pop (a : Agent) (now : Nat) : Agent × Option Cbd :=
 /-- checkOutOfWindow (the boolean; the caller erases) -/
 def outOfWindow (now t w : Nat) : Bool := !(decide (now < w) || decide (t ≥ now - w))
 
+/-- goEraseHistoric, one pass (the fail-safe eraser). `over`: THIS shard's disk usage (sum of its file sizes, which
+the model does not track) exceeds the shard's share MaxHistoricDiskSize / NumShards. The popped second is dropped when it
+left the historic window or when the shard is over its share (deliberate losses, recorded); otherwise it goes back into
+the historic queue. -/
+def eraserStep (a : Agent) (now : Nat) (over : Bool) : Agent :=
+  match pop a now with
+  | (_, none) => a
+  | (a', some c) =>
+    if outOfWindow a'.now c.sec a'.window then { diskErase a' c.id with dropped := a'.dropped ++ [c.sec], oow := a'.oow + 1 }
+    else if over then { diskErase a' c.id with dropped := a'.dropped ++ [c.sec], oow := a'.oow }
+    else appendHist a' c
+
+/-- the shard's own usage against its share -/
+def overShare (used : List Nat) (shard limit : Nat) : Bool := decide (used.getD shard 0 > limit / used.length)
+
 /-! ### agent: replica choice and liveness -/
 
 def isAlive (a : Agent) (r : Nat) : Bool := match a.live[r]? with | some l => l.alive | none => false
